@@ -1,0 +1,209 @@
+//go:build verif
+
+package kafka
+
+// Add-only export file for the verification harness in /verif (property C04,
+// response direction of the hand-written Conn codec).  Nothing here is
+// compiled into normal builds.  VerifC04Read hands a response body to the
+// reader the Conn (or, for the two consumer-group blobs, consumergroup.go)
+// uses for it and renders the decoded Go value field by field.
+
+import (
+	"bufio"
+	"bytes"
+	"encoding/hex"
+	"fmt"
+	"reflect"
+	"sort"
+	"strings"
+)
+
+// c04bRender appends the tokens of v: I<hex> for integers and booleans,
+// S<hex> for strings and byte slices ("." when empty or nil), L<n> followed by
+// the elements for slices, the fields in declaration order for structs (the
+// unexported version field "v" and the fields named in skip left out), maps
+// from string as L<n> followed by key and value in key order.
+func c04bRender(v reflect.Value, skip map[string]bool, out *[]string) {
+	switch v.Kind() {
+	case reflect.Int8, reflect.Int16, reflect.Int32, reflect.Int64, reflect.Int:
+		*out = append(*out, "I"+c11I(v.Int()))
+	case reflect.Bool:
+		if v.Bool() {
+			*out = append(*out, "I1")
+		} else {
+			*out = append(*out, "I0")
+		}
+	case reflect.String:
+		*out = append(*out, "S"+c11S(v.String()))
+	case reflect.Slice:
+		if v.Type().Elem().Kind() == reflect.Uint8 {
+			b := v.Bytes()
+			if len(b) == 0 {
+				*out = append(*out, "S.")
+			} else {
+				*out = append(*out, "S"+hex.EncodeToString(b))
+			}
+			return
+		}
+		*out = append(*out, fmt.Sprintf("L%x", v.Len()))
+		for i := 0; i < v.Len(); i++ {
+			c04bRender(v.Index(i), skip, out)
+		}
+	case reflect.Struct:
+		t := v.Type()
+		for i := 0; i < v.NumField(); i++ {
+			if n := t.Field(i).Name; n == "v" || skip[n] {
+				continue
+			}
+			c04bRender(v.Field(i), skip, out)
+		}
+	case reflect.Map:
+		keys := v.MapKeys()
+		sort.Slice(keys, func(i, j int) bool { return keys[i].String() < keys[j].String() })
+		*out = append(*out, fmt.Sprintf("L%x", len(keys)))
+		for _, k := range keys {
+			c04bRender(k, skip, out)
+			c04bRender(v.MapIndex(k), skip, out)
+		}
+	default:
+		panic(fmt.Sprintf("verif: cannot render %s", v.Type()))
+	}
+}
+
+func c04bString(a interface{}, skip ...string) string {
+	m := map[string]bool{}
+	for _, s := range skip {
+		m[s] = true
+	}
+	var out []string
+	c04bRender(reflect.ValueOf(a), m, &out)
+	if len(out) == 0 {
+		return "-"
+	}
+	return strings.Join(out, ",")
+}
+
+// VerifC04Read decodes body (a response body without size and correlation id,
+// or a blob) with the reader of the response named name at version ver:
+//
+//	metadata                       read(r, size, &metadataResponseV1/V6{}) (Conn.readResponse)
+//	findcoordinator, joingroup, syncgroup, heartbeat, leavegroup, offsetcommit,
+//	offsetfetch, listgroups, createtopics, deletetopics, saslhandshake,
+//	saslauthenticate               the response struct's readFrom
+//	producepartition               produceResponsePartitionV2 (ver 2, 3) / V7 .readFrom
+//	listoffsetspartition           partitionOffsetV1.readFrom
+//	fetchheader                    readFetchResponseHeaderV2 / V5 / V10 (throttle, high watermark)
+//	groupmetadata, groupassignment groupMetadata.readFrom, groupAssignment.readFrom
+//
+// size is the remaining-size argument handed to the reader.  It returns the
+// rendering of the decoded value, the remaining size the reader returned and
+// its error.
+func VerifC04Read(name string, ver int, body []byte, size int) (rendered string, remain int, err error) {
+	r := bufio.NewReader(bytes.NewReader(body))
+	switch name {
+	case "metadata":
+		if ver == 6 {
+			var res metadataResponseV6
+			remain, err = read(r, size, &res)
+			return c04bString(res), remain, err
+		}
+		var res metadataResponseV1
+		remain, err = read(r, size, &res)
+		return c04bString(res), remain, err
+	case "findcoordinator":
+		var res findCoordinatorResponseV0
+		remain, err = (&res).readFrom(r, size)
+		return c04bString(res), remain, err
+	case "joingroup":
+		res := joinGroupResponse{v: apiVersion(ver)}
+		remain, err = (&res).readFrom(r, size)
+		if ver >= 2 {
+			return c04bString(res), remain, err
+		}
+		return c04bString(res, "ThrottleTime"), remain, err
+	case "syncgroup":
+		var res syncGroupResponseV0
+		remain, err = (&res).readFrom(r, size)
+		return c04bString(res), remain, err
+	case "heartbeat":
+		var res heartbeatResponseV0
+		remain, err = (&res).readFrom(r, size)
+		return c04bString(res), remain, err
+	case "leavegroup":
+		var res leaveGroupResponseV0
+		remain, err = (&res).readFrom(r, size)
+		return c04bString(res), remain, err
+	case "offsetcommit":
+		var res offsetCommitResponseV2
+		remain, err = (&res).readFrom(r, size)
+		return c04bString(res), remain, err
+	case "offsetfetch":
+		var res offsetFetchResponseV1
+		remain, err = (&res).readFrom(r, size)
+		return c04bString(res), remain, err
+	case "listgroups":
+		var res listGroupsResponseV1
+		remain, err = (&res).readFrom(r, size)
+		return c04bString(res), remain, err
+	case "createtopics":
+		res := createTopicsResponse{v: apiVersion(ver)}
+		remain, err = (&res).readFrom(r, size)
+		var skip []string
+		if ver < 2 {
+			skip = append(skip, "ThrottleTime")
+		}
+		if ver < 1 {
+			skip = append(skip, "ErrorMessage")
+		}
+		return c04bString(res, skip...), remain, err
+	case "deletetopics":
+		res := deleteTopicsResponse{v: apiVersion(ver)}
+		remain, err = (&res).readFrom(r, size)
+		if ver >= 1 {
+			return c04bString(res), remain, err
+		}
+		return c04bString(res, "ThrottleTime"), remain, err
+	case "saslhandshake":
+		var res saslHandshakeResponseV0
+		remain, err = (&res).readFrom(r, size)
+		return c04bString(res), remain, err
+	case "saslauthenticate":
+		var res saslAuthenticateResponseV0
+		remain, err = (&res).readFrom(r, size)
+		return c04bString(res), remain, err
+	case "producepartition":
+		if ver == 7 {
+			var res produceResponsePartitionV7
+			remain, err = (&res).readFrom(r, size)
+			return c04bString(res), remain, err
+		}
+		var res produceResponsePartitionV2
+		remain, err = (&res).readFrom(r, size)
+		return c04bString(res), remain, err
+	case "listoffsetspartition":
+		var res partitionOffsetV1
+		remain, err = (&res).readFrom(r, size)
+		return c04bString(res), remain, err
+	case "fetchheader":
+		var throttle int32
+		var watermark int64
+		switch ver {
+		case 10:
+			throttle, watermark, remain, err = readFetchResponseHeaderV10(r, size)
+		case 5:
+			throttle, watermark, remain, err = readFetchResponseHeaderV5(r, size)
+		default:
+			throttle, watermark, remain, err = readFetchResponseHeaderV2(r, size)
+		}
+		return "I" + c11I(int64(throttle)) + ",I" + c11I(watermark), remain, err
+	case "groupmetadata":
+		var res groupMetadata
+		remain, err = (&res).readFrom(r, size)
+		return c04bString(res), remain, err
+	case "groupassignment":
+		var res groupAssignment
+		remain, err = (&res).readFrom(r, size)
+		return c04bString(res), remain, err
+	}
+	return "", size, fmt.Errorf("verif: unknown reader %q", name)
+}
